@@ -93,7 +93,10 @@ Inductive dcase :=
 (* the loops of internal/dkg/broadcast.go (newDispatcher, dispatcher.broadcast,
    dispatcher.broadcastDirect) as read from the source by the engine: the premise [shape_ok] of
    C06_echo_delivery *)
-| DEcho (s : dispatcher_shape).
+| DEcho (s : dispatcher_shape)
+(* the argument of dkg.NewTimePhaser in startDKGExecution (internal/dkg/execution.go) as read
+   from the source by the engine: the premise [phaser_ok] of C06_phase_window *)
+| DPhaser (src : phaser_source).
 
 Definition ok (c : dcase) : bool :=
   match c with
@@ -110,6 +113,7 @@ Definition ok (c : dcase) : bool :=
                                st commits qual now) (Ok out))
               (zrange t0 (Z.to_nat (t1 - t0 + 1)))
   | DEcho s => shape_ok s
+  | DPhaser src => phaser_ok src
   end.
 
 Definition mismatches (cs : list dcase) : list Z := mism_from ok 0 cs.
